@@ -12,6 +12,12 @@ let fwt = function "i64" -> C.I64 | "i32" -> C.I32 | "i16" -> C.I16 | "u8" -> C.
 let fwop = function "add" -> C.FAdd | "sub" -> C.FSub | "mul" -> C.FMul | "fdiv" -> C.FDiv | "mod" -> C.FMod
   | "and" -> C.FAnd | "or" -> C.FOr | "xor" -> C.FXor | "shl" -> C.FShl | "shr" -> C.FShr | _ -> failwith "fwop"
 let z = z_of_text
+(* floats travel as their 64-bit patterns *)
+let fb x = C.bits_to_sf (z x)
+let fo f = "F " ^ text_of_z (C.sf_to_bits f)
+let frs = function C.FVal f -> fo f | C.FErr e -> "E " ^ exn_s e
+let brs = function C.BVal v -> b v | C.BErr e -> "E " ^ exn_s e
+let rtz = function C.Ok t -> "I " ^ text_of_z (C.untag t) | C.Raise e -> "E " ^ exn_s e
 let handle = function
   (* tagged primitives on canonical tagged operands *)
   | ["t"; "neg"; a] -> tg (C.tagged_negate (C.tag (z a)))
@@ -51,5 +57,33 @@ let handle = function
   | ["c"; t; a] -> rz (C.coerce_int_to_fw (fwt t) (C.tag (z a)))
   | ["co"; t; a] -> rz (C.long_as_fw (fwt t) (z a))
   | ["w"; t; x] -> tg (C.coerce_fw_to_int (fwt t) (z x))
+  (* floats: fl = model of the C code, flp = transcription of CPython *)
+  | ["fl"; "floordiv"; x; y] -> frs (C.c_floordiv (fb x) (fb y))
+  | ["flp"; "floordiv"; x; y] -> frs (C.py_float_floor_div (fb x) (fb y))
+  | ["fl"; "mod"; x; y] -> frs (C.c_float_mod (fb x) (fb y))
+  | ["flp"; "mod"; x; y] -> frs (C.py_float_rem (fb x) (fb y))
+  | ["fl"; "div"; x; y] -> frs (C.c_float_truediv (fb x) (fb y))
+  | ["flp"; "div"; x; y] -> frs (C.py_float_truediv (fb x) (fb y))
+  | ["fl"; "add"; x; y] -> fo (C.fadd (fb x) (fb y))
+  | ["fl"; "sub"; x; y] -> fo (C.fsub (fb x) (fb y))
+  | ["fl"; "mul"; x; y] -> fo (C.fmul (fb x) (fb y))
+  | ["fl"; "neg"; x] -> fo (C.fopp (fb x))
+  | ["fl"; "abs"; x] -> fo (C.fabs (fb x))
+  | ["fl"; "cmp"; op; x; y] -> b (C.fcmp (cmpop op) (fb x) (fb y))
+  | ["fl"; "toint"; x] -> rtz (C.c_from_float (fb x))
+  | ["flp"; "toint"; x] -> rz (C.py_int_of_float (fb x))
+  | ["fl"; "floor"; x] -> rtz (C.c_floor (fb x))
+  | ["fl"; "ceil"; x] -> rtz (C.c_ceil (fb x))
+  | ["flp"; "floor"; x] -> rz (C.py_int_of_float (C.ffloor (fb x)))
+  | ["flp"; "ceil"; x] -> rz (C.py_int_of_float (C.fceil (fb x)))
+  | ["fl"; "fromint"; a] -> frs (C.c_from_tagged (C.tag (z a)))
+  | ["flp"; "fromint"; a] -> frs (C.py_float_of_int (z a))
+  | ["fl"; "itruediv"; a; c] -> frs (C.c_truediv (C.tag (z a)) (C.tag (z c)))
+  | ["flp"; "itruediv"; a; c] -> frs (C.py_truediv (z a) (z c))
+  | ["fl"; "icmp"; op; a; x] -> brs (C.c_int_float_cmp (cmpop op) (C.tag (z a)) (fb x))
+  | ["flp"; "icmp"; op; a; x] -> b (C.py_int_float_cmp (cmpop op) (z a) (fb x))
+  | ["fl"; "fwtof"; a] -> frs (C.c_fw_to_float (z a))
+  | ["fl"; "ftofw"; t; x] -> rz (C.c_float_to_fw (fwt t) (fb x))
+  | ["flp"; "ftofw"; t; x] -> rz (C.py_float_to_fw (fwt t) (fb x))
   | _ -> "!BAD"
 let () = main handle
